@@ -36,12 +36,32 @@ type DOp struct {
 	Re bool `json:"re,omitempty"`
 	W2 int  `json:"w2,omitempty"`
 	B2 int  `json:"b2,omitempty"`
+	// writeto on a DecoderBuffer: the writer accepts part of the data and
+	// fails (nil: it accepts everything)
+	F *WStep `json:"f,omitempty"`
 }
 
 // WStep is one step of a writer plan.
 type WStep struct {
 	Acc  int  `json:"a"` // 0: 0 bytes, 1: 1 byte, 2: len/2, 3: len-1, 4: len
 	Fail bool `json:"f"`
+	// E selects the error value: 0 the harness' own error, 1 io.ErrShortWrite
+	// (what bufio.Writer and io.MultiWriter report), 2 io.ErrClosedPipe,
+	// 3 io.EOF.
+	E int `json:"e,omitempty"`
+}
+
+// writerErr returns the error value of a fault step.
+func writerErr(e int) error {
+	switch e {
+	case 1:
+		return io.ErrShortWrite
+	case 2:
+		return io.ErrClosedPipe
+	case 3:
+		return io.EOF
+	}
+	return ErrInjected
 }
 
 // DCase is a concrete decoder history.
@@ -68,6 +88,8 @@ type planWriter struct {
 	callCalls, callEmpty, budget int
 	failedInCall                 bool
 	faultsSeen                   int
+	// lastErr is the error of the most recent fault.
+	lastErr error
 }
 
 func (w *planWriter) begin(argBytes int) {
@@ -108,7 +130,8 @@ func (w *planWriter) Write(p []byte) (int, error) {
 		w.accepted = append(w.accepted, p[:n]...)
 		w.failedInCall = true
 		w.faultsSeen++
-		return n, ErrInjected
+		w.lastErr = writerErr(st.E)
+		return n, w.lastErr
 	}
 	w.accepted = append(w.accepted, p...)
 	return len(p), nil
@@ -488,6 +511,25 @@ func (r *DRun) stepBuffer(i int, op *DOp) {
 		var rec bytes.Buffer
 		var n int64
 		var err error
+		if op.F != nil {
+			// a writer that accepts a part and fails: the accepted bytes
+			// are handed out, the rest stays unread
+			fw := &planWriter{fault: map[int]WStep{0: *op.F}}
+			fw.begin(1 << 20)
+			if pv := call(func() { n, err = b.WriteTo(fw) }); pv != nil {
+				r.failf(i, "panic", "panic-WriteTo", "%s", fmtPanic(pv))
+				return
+			}
+			un := m.Unread()
+			if fw.calls != 1 || err != fw.lastErr || n != int64(len(fw.accepted)) || len(fw.accepted) > len(un) || !bytes.Equal(fw.accepted, un[:len(fw.accepted)]) {
+				r.failf(i, "read-bytes", "WriteTo-failing-writer", "WriteTo on a writer that accepted %d of %d unread bytes and returned %v: n=%d err=%v (%d writer calls)", len(fw.accepted), len(un), fw.lastErr, n, err, fw.calls)
+				return
+			}
+			m.ReadPos += len(fw.accepted)
+			st.Add("bytes_read", n)
+			st.Inc("writeto_with_failing_writer")
+			break
+		}
 		if pv := call(func() { n, err = b.WriteTo(&rec) }); pv != nil {
 			r.failf(i, "panic", "panic-WriteTo", "%s", fmtPanic(pv))
 			return
@@ -642,7 +684,7 @@ func (r *DRun) afterBlock(i int, op *DOp, seqs []lz.Seq, bad int, lits []byte, s
 		r.failf(i, "refused-valid", class, "Decoder.WriteBlock refused a well-formed block at sequence %d (%+v) with %v; WindowSize=%d BufferSize=%d", k, seqAt(seqs, k), err, r.W, r.B)
 	case errIs(err, errStrOffset) || errIs(err, errStrLitLen):
 		r.failf(i, "valid-offset-rejected", "WriteBlock-valid-rejected", "well-formed sequence %d %+v rejected with %v (stream length %d, WindowSize %d)", k, seqAt(seqs, k), err, len(m.Out)-len(app), r.W)
-	case err == ErrInjected && decoder:
+	case decoder && r.w.failedInCall && err == r.w.lastErr:
 	default:
 		chk := "unexpected-error"
 		if decoder {
@@ -682,6 +724,45 @@ func (r *DRun) prefixCheck(i int) {
 	}
 }
 
+// verifyTaken makes the number of bytes a Decoder call really took in
+// observable (C17 on the Decoder, whose buffer is private): after a call during
+// which the writer failed, the decoder is flushed - retrying until the writer
+// accepts - so that the writer holds everything the decoder has taken. If that
+// is the stream before the call plus a prefix of full (the complete expansion
+// of the call's arguments) of another length than the call reported, the
+// reported counts are wrong. Any other difference is not a matter of counts
+// and is left to the flush / exactly-once checks.
+func (r *DRun) verifyTaken(i int, name string, pre int, full []byte, report string) {
+	if !r.owned["count-k-l"] || r.fail != nil {
+		return
+	}
+	m := &r.model
+	for try := 0; ; try++ {
+		var err error
+		if !r.decCall(i, "Flush", 0, func() { err = r.dec.Flush() }) {
+			return
+		}
+		if err == nil {
+			break
+		}
+		if err != r.w.lastErr || try > 60 {
+			return
+		}
+	}
+	r.st.Inc("counts_verified_after_writer_fault")
+	acc := r.w.accepted
+	if bytes.Equal(acc, m.Out) {
+		return
+	}
+	if len(acc) < pre || pre > len(m.Out) || !bytes.Equal(acc[:pre], m.Out[:pre]) {
+		return
+	}
+	got := acc[pre:]
+	if len(got) <= len(full) && bytes.Equal(got, full[:len(got)]) && len(got) != len(m.Out)-pre {
+		r.failf(i, "count-k-l", name+"-counts-after-writer-fault", "Decoder.%s returned %s after a writer error, which denotes %d bytes taken, but the decoder took %d bytes of the arguments (seen after flushing)", name, report, len(m.Out)-pre, len(got))
+	}
+}
+
 func (r *DRun) stepDecoder(i int, op *DOp) {
 	d := r.dec
 	st := r.st
@@ -699,12 +780,13 @@ func (r *DRun) stepDecoder(i int, op *DOp) {
 				m.Out = append(m.Out, op.Data[0])
 				break
 			}
-			if !w.failedInCall || err != ErrInjected {
+			if !w.failedInCall || err != w.lastErr {
 				r.failf(i, errCheck(w), "WriteByte-error", "Decoder.WriteByte returned %v (writer failed in call: %v)", err, w.failedInCall)
 				return
 			}
 			st.Inc("calls_with_writer_fault")
 			r.prefixCheck(i)
+			r.verifyTaken(i, "WriteByte", len(m.Out), op.Data[:1], "an error")
 			if r.fail != nil || try > maxRetry {
 				return
 			}
@@ -722,6 +804,7 @@ func (r *DRun) stepDecoder(i int, op *DOp) {
 				r.failf(i, "count-n", "Decoder.Write-n", "Decoder.Write of %d bytes returned n=%d", len(p), n)
 				return
 			}
+			pre := len(m.Out)
 			m.Out = append(m.Out, p[:n]...)
 			if err == nil {
 				if n != len(p) {
@@ -730,12 +813,13 @@ func (r *DRun) stepDecoder(i int, op *DOp) {
 				}
 				break
 			}
-			if !w.failedInCall || err != ErrInjected {
+			if !w.failedInCall || err != w.lastErr {
 				r.failf(i, errCheck(w), "Decoder.Write-error", "Decoder.Write(%d bytes) returned n=%d err=%v (writer failed in call: %v); WindowSize=%d BufferSize=%d", len(p), n, err, w.failedInCall, r.W, r.B)
 				return
 			}
 			st.Inc("calls_with_writer_fault")
 			r.prefixCheck(i)
+			r.verifyTaken(i, "Write", pre, p, fmt.Sprintf("n=%d", n))
 			if r.fail != nil || try > maxRetry {
 				return
 			}
@@ -763,6 +847,7 @@ func (r *DRun) stepDecoder(i int, op *DOp) {
 				return
 			}
 			sub := &DOp{K: "block", Data: lits, Seqs: nil, Hostile: op.Hostile}
+			pre := len(m.Out)
 			r.afterBlock(i, sub, seqs, bad, la, sa, n, k, l, err, true)
 			if r.fail != nil {
 				return
@@ -774,12 +859,32 @@ func (r *DRun) stepDecoder(i int, op *DOp) {
 				// rejected as required; the stream continues
 				break
 			}
-			if !w.failedInCall || err != ErrInjected {
+			if !w.failedInCall || err != w.lastErr {
 				r.failf(i, errCheck(w), "Decoder.WriteBlock-error", "Decoder.WriteBlock returned %v (writer failed in call: %v)", err, w.failedInCall)
 				return
 			}
 			st.Inc("calls_with_writer_fault")
 			r.prefixCheck(i)
+			if r.owned["count-k-l"] && r.fail == nil && pre <= len(m.Out) {
+				// complete expansion of the arguments on top of the stream
+				// before the call
+				vs, vl := seqs, lits
+				if bad >= 0 {
+					vs = seqs[:bad]
+					sl, _ := ref.SumLit(vs)
+					vl = lits[:sl]
+				}
+				// (attacker-chosen lengths are not expanded by the harness)
+				var total int64
+				for _, q := range vs {
+					total += int64(q.LitLen) + int64(q.MatchLen)
+				}
+				if total <= int64(4*r.B)+1<<16 {
+					if full, xerr := ref.Expand(append([]byte(nil), m.Out[:pre]...), vs, vl); xerr == nil {
+						r.verifyTaken(i, "WriteBlock", pre, full[pre:], fmt.Sprintf("n=%d k=%d l=%d", n, k, l))
+					}
+				}
+			}
 			if r.fail != nil || try > maxRetry {
 				return
 			}
@@ -805,7 +910,7 @@ func (r *DRun) stepDecoder(i int, op *DOp) {
 				st.Inc("flushes_verified")
 				break
 			}
-			if !w.failedInCall || err != ErrInjected {
+			if !w.failedInCall || err != w.lastErr {
 				r.failf(i, errCheck(w), "Flush-error", "Flush returned %v", err)
 				return
 			}
@@ -1087,7 +1192,11 @@ func GenDOps(r *rand.Rand, g *DGen) []DOp {
 			}
 		case k < 90:
 			if g.SUT == "buffer" {
-				ops = append(ops, DOp{K: "writeto"})
+				op := DOp{K: "writeto"}
+				if r.Intn(3) == 0 {
+					op.F = &WStep{Acc: r.Intn(5), Fail: true, E: r.Intn(4)}
+				}
+				ops = append(ops, op)
 			} else {
 				ops = append(ops, DOp{K: "flush"})
 			}
